@@ -21,7 +21,7 @@ Qed.
 Lemma dec_bw_suffix : psuffix dec_bw.
 Proof.
   intros bs x r H. unfold dec_bw in H. change (ssfx bs r).
-  apply bind_ok in H as [[ln r0] [H0 H]]. apply bind_ok in H as [[vk r1] [H1 H]].
+  apply bind_ok in H as [[ln r0] [H0 H]]. apply bind_ok in H as [u [_ H]]. apply bind_ok in H as [[vk r1] [H1 H]].
   destruct (negb (blen vk =? 32)); [discriminate|].
   apply bind_ok in H as [[sg r2] [H2 H]]. destruct (negb (blen sg =? 64)); [discriminate|].
   apply bind_ok in H as [[cc r3] [H3 H]]. apply bind_ok in H as [[at_ r4] [H4 H]].
@@ -227,18 +227,19 @@ Proof.
     split; [reflexivity|exact Hwf].
 Qed.
 
-Lemma dec_tail_shape bs v a r : dec_tail bs = Ok ((v, a), r) ->
+Lemma dec_tail_shape ln bs v a r : dec_tail ln bs = Ok ((v, a), r) ->
   exists V, bs = V ++ enc_aux a ++ r /\ ((V = [] /\ v = true) \/ V = enc_valid v) /\
             match a with Some x => item_wf x = true | None => True end.
 Proof.
   unfold dec_tail. intros H. apply bind_ok in H as [t [_ H]]. destruct (t =? 7).
   - apply bind_ok in H as [[s r'] [H1 H]]. destruct s; try discriminate.
-    + apply bind_ok in H as [[a' r''] [H2 H]]. injection H as <- <- <-.
+    + apply bind_ok in H as [u [_ H]]. apply bind_ok in H as [[a' r''] [H2 H]]. injection H as <- <- <-.
       apply rd_special_bool in H1. apply dec_aux_after_bool_shape in H2 as [-> Hwf].
       exists (enc_valid b). split; [exact H1|]. split; [right; reflexivity|exact Hwf].
-    + injection H as <- <- <-. apply rd_special_null in H1. exists []. split; [exact H1|].
+    + apply bind_ok in H as [u [_ H]]. injection H as <- <- <-. apply rd_special_null in H1. exists []. split; [exact H1|].
       split; [left; split; reflexivity|exact I].
-  - apply bind_ok in H as [[x r'] [H1 H]]. injection H as <- <- <-. apply raw_item_self in H1 as [-> Hwf].
+  - apply bind_ok in H as [u [_ H]]. apply bind_ok in H as [[x r'] [H1 H]]. injection H as <- <- <-.
+    apply raw_item_self in H1 as [-> Hwf].
     exists []. split; [reflexivity|]. split; [left; split; reflexivity|exact Hwf].
 Qed.
 
